@@ -75,7 +75,7 @@ def renumber(lines, prefix):
     return out
 
 
-def evaluate(prop, runner, lines):
+def evaluate(prop, runner, lines, full=False):
     impl, model = runner.both(lines)
     findings = []
     for l in lines:
@@ -89,7 +89,8 @@ def evaluate(prop, runner, lines):
                                     "%s · driver-died" % prop.id))
             continue
         findings.extend(prop.judge(l, impl[cid], model[cid]))
-    findings.extend(prop.judge_group(lines, impl, model))
+    if full:
+        findings.extend(prop.judge_group(lines, impl, model))
     return findings, impl, model
 
 
@@ -167,7 +168,7 @@ def run_property(prop, tier, seed, replay=None):
                 all_cases = renumber(prop.corpus(), "k") + renumber(gen_cases, "g")
             ctx = {"runner": runner, "tier": tier, "seed": seed, "replay": replay}
             if all_cases:
-                findings, impl, model = evaluate(prop, runner, all_cases)
+                findings, impl, model = evaluate(prop, runner, all_cases, full=not replay)
             if not replay:
                 xf, xc = prop.extra(ctx)
                 findings += xf
